@@ -514,6 +514,269 @@ def parmSweep (thorough : Bool) (doc : Bytes → IO Unit) : IO Unit := do
         doc (parmDoc k (k / 4) 3 (((base 12).set 0 pv).set pos b))
         k := k + 1
 
+/-! ### lying structural metadata
+
+  Complete small documents of three layouts - classic table, cross-reference stream + object stream (catalog,
+  page tree, font and an unused last member live in the object stream), hybrid (classic table with several
+  subsections + /XRefStm) - each optionally with an incremental update in the same style (/Prev), in which
+  every NUMBER that describes the file's own structure is written through `fld name exact extent`.  A document
+  is built with ONE field lying: the field takes, one after the other, the boundary values of `lieVals`
+  relative to its exact value and to the extent of the structure it points into (file length for file offsets,
+  length of the member data for object-stream offsets, /Size for object numbers, number of members for indices,
+  4 for /W).  All other fields keep their exact values, recomputed for the bytes as they are written (a lie that
+  is longer than the truth moves everything behind it, and the offsets follow).  Besides the numbers that are
+  spelled in the file there are three fields that TRUNCATE data while everything else stays consistent (`os.cut`,
+  `os.cut2`: the object stream's data cut near /First and near the last member's offset; `xs.cut`: the rows of
+  the cross-reference stream) and one lie told by all type-2 rows together (`xs.stmAll`: the number of the object
+  stream).  The builder records the names of the fields it consulted, so the thorough sweep enumerates them
+  itself (nothing can be forgotten); the quick tier sweeps the subset named in `lieQuickSel`. -/
+
+abbrev LieFn := String → Nat → Nat → Int
+abbrev LieM := ReaderT LieFn (StateM (List String))
+
+def honest : LieFn := fun _ e _ => (e : Int)
+
+/-- the value written for field `f` whose true value is `e`; `x` = extent of the structure it points into (0: none) -/
+def fld (f : String) (e : Nat) (x : Nat := 0) : LieM Int := do
+  modify fun s => f :: s
+  let L ← read
+  return L f e x
+
+def spellI (v : Int) : Bytes := bs (toString v)
+
+def num (f : String) (e : Nat) (x : Nat := 0) : LieM Bytes := do
+  return spellI (← fld f e x)
+
+/-- the 10-digit offset column of a classic table entry (a value that does not fit is written as it is) -/
+def pad10I (v : Int) : Bytes := if 0 ≤ v && v < 10000000000 then pad10 v.toNat else spellI v
+
+/-- big-endian field of a cross-reference stream row (two's complement / truncation to the width) -/
+def beBytes (w : Nat) (v : Int) : Bytes :=
+  let n := (v % ((256 ^ w : Nat) : Int)).toNat
+  (List.range w).map fun i => UInt8.ofNat (n / 256 ^ (w - 1 - i) % 256)
+
+/-- boundary values for a field with exact value `e` and extent `x` -/
+def lieVals (thorough : Bool) (e x : Nat) : List Int :=
+  let e' : Int := e
+  let x' : Int := x
+  [0, 1, e' - 1, e' + 1, e' + 2, 2 * e', 2147483648, 4294967297, 4611686018427387904, 9223372036854775807, -1] ++
+  (if x > 0 then [x' - 1, x', x' + 1] else []) ++
+  (if thorough then
+    [e' + 4294967296, e' + 3, 3 * e', -e', 2147483647, 4294967295, 4294967296, 9223372036854775808, 18446744073709551615,
+     -9223372036854775808, e' + 18446744073709551616] ++ (if x > 0 then [x' + 2, 2 * x', x' + 4294967296] else [])
+   else [])
+
+structure LieCfg where
+  layout : Nat            -- 0 classic, 1 cross-reference stream + object stream, 2 hybrid
+  upd : Bool := false     -- an incremental update in the same style that redefines the content stream (/Prev)
+  flate : Bool := false   -- object stream and cross-reference stream behind FlateDecode
+  wide : Bool := false    -- /W [1 4 4] instead of [1 2 1]
+  index : Bool := false   -- layout 1: spell out /Index [0 Size]
+
+/-- one row of a cross-reference stream: fields `<pre>r<k>.type|a|b` -/
+def lieRow (pre : String) (w : Nat × Nat × Nat) (k t a b xa xb : Nat) (stmDelta : Int) : LieM Bytes := do
+  let tv ← fld s!"{pre}r{k}.type" t 2
+  let av ← fld s!"{pre}r{k}.a" a xa
+  let bv ← fld s!"{pre}r{k}.b" b xb
+  return beBytes w.1 tv ++ beBytes w.2.1 (if t == 2 then av + stmDelta else av) ++ beBytes w.2.2 bv
+
+/-- a classic table: subsections (first object number, entries: some offset = in use, none = free) -/
+def lieTable (pre : String) (subs : List (Nat × List (Option Nat))) (size flen : Nat) : LieM Bytes := do
+  let mut out := bs "xref\n"
+  let mut j := 0
+  for (start, ents) in subs do
+    out := out ++ (← num s!"{pre}ct.start{j}" start size) ++ bs " " ++ (← num s!"{pre}ct.count{j}" ents.length size) ++ bs "\n"
+    let mut i := 0
+    for e in ents do
+      match e with
+      | some o => out := out ++ pad10I (← fld s!"{pre}ct.ofs{start + i}" o flen) ++ bs " 00000 n \n"
+      | none => out := out ++ pad10I (← fld s!"{pre}ct.next{start + i}" 0 size) ++ bs " 65535 f \n"
+      i := i + 1
+    j := j + 1
+  return out
+
+def lieTrailer (pre : String) (size : Nat) (extra : Bytes) (sxName : String) (secOfs flen : Nat) : LieM Bytes := do
+  return bs "trailer\n<< /Size " ++ (← num s!"{pre}tr.Size" size) ++ bs " /Root 1 0 R" ++ extra ++ bs " >>\nstartxref\n" ++
+    (← num sxName secOfs flen) ++ bs "\n%%EOF\n"
+
+/-- a cross-reference stream object: `rows` = (object number, type, field 2, field 3, extents), `index` pairs -/
+def lieXrefStm (pre : String) (c : LieCfg) (onum size : Nat) (index : Option (List (Nat × Nat)))
+    (rows : List (Nat × Nat × Nat × Nat × Nat × Nat)) (extra : Bytes) : LieM Bytes := do
+  let w : Nat × Nat × Nat := if c.wide then (1, 4, 4) else (1, 2, 1)
+  let mut data : Bytes := []
+  -- ONE lie about the number of the object stream, told by every type-2 row (the loader collects the set of
+  -- streams the rows name, so a single row lying is covered up by its neighbours)
+  let mut stmDelta : Int := 0
+  if rows.any (fun r => r.2.1 == 2) then
+    stmDelta := (← fld s!"{pre}xs.stmAll" 10 size) - 10
+  for (k, t, a, b, xa, xb) in rows do
+    data := data ++ (← lieRow s!"{pre}xs." w k t a b xa xb stmDelta)
+  -- truncated rows (everything else consistent)
+  data := data.take (← fld s!"{pre}xs.cut" data.length (w.1 + w.2.1 + w.2.2)).toNat
+  let enc := if c.flate then zlibStored data else data
+  let mut ix : Bytes := []
+  match index with
+  | none => pure ()
+  | some ps =>
+    let mut j := 0
+    ix := bs " /Index ["
+    for (s, n) in ps do
+      ix := ix ++ (← num s!"{pre}xs.Index{j}" s size) ++ bs " " ++ (← num s!"{pre}xs.Index{j + 1}" n size) ++ bs " "
+      j := j + 2
+    ix := ix ++ bs "]"
+  let dict := bs "/Type /XRef /Size " ++ (← num s!"{pre}xs.Size" size) ++ bs " /W [" ++ (← num s!"{pre}xs.W0" w.1 4) ++ bs " " ++
+    (← num s!"{pre}xs.W1" w.2.1 4) ++ bs " " ++ (← num s!"{pre}xs.W2" w.2.2 4) ++ bs "]" ++ ix ++ bs " /Root 1 0 R" ++
+    (if c.flate then bs " /Filter /FlateDecode" else []) ++ extra
+  return streamObj onum dict (← num s!"{pre}xs.Length" enc.length) enc
+
+def updContent : Bytes := bs "BT /F1 9 Tf 72 700 Td (update) Tj ET"
+
+/-- the document of configuration `c`; `flen` = the length of the file (extent of file offsets) -/
+def lieDocM (c : LieCfg) (flen : Nat) : LieM Bytes := do
+  let classic := c.layout == 0
+  let size : Nat := if classic then 10 else 12
+  let kids ← num "pg.Kids" 3 size
+  let count ← num "pg.Count" 1
+  let len4 ← num "len.direct" textContent.length
+  let len8 ← num "len.ref" 3
+  let o1 := bs "<< /Type /Catalog /Pages 2 0 R >>"
+  let o2 := bs "<< /Type /Pages /Kids [" ++ kids ++ bs " 0 R] /Count " ++ count ++ bs " >>"
+  let o5 := bs "<< /Type /Font /Subtype /Type1 /BaseFont /Helvetica /FontDescriptor 6 0 R >>"
+  let o6 := bs "<< /Type /FontDescriptor /FontName /Helvetica /Flags 32 /FontFile 7 0 R >>"
+  let f3 := obj 3 (bs "<< /Type /Page /Parent 2 0 R /MediaBox [0 0 612 792] /Contents 4 0 R /Resources << /Font << /F1 5 0 R >> >> >>")
+  let f4 := streamObj 4 [] len4 textContent
+  let f7 := streamObj 7 [] (bs "8 0 R") (bs "abc")      -- its /Length is defined AFTER it: second pass of the loader
+  let f8 := obj 8 len8
+  let fileObjs : List (Nat × Bytes) :=
+    if classic then [(1, obj 1 o1), (2, obj 2 o2), (3, f3), (4, f4), (5, obj 5 o5), (6, obj 6 o6), (7, f7), (8, f8), (9, obj 9 (bs "null"))]
+    else [(3, f3), (4, f4), (7, f7), (8, f8)]
+  let mut body := hdr
+  let mut offs : List (Nat × Nat) := []
+  for (k, t) in fileObjs do
+    offs := offs ++ [(k, body.length)]
+    body := body ++ t
+  let mut baseSec := 0
+  if classic then
+    baseSec := body.length
+    let tbl ← lieTable "" [(0, none :: offs.map fun p => some p.2)] size flen
+    let tr ← lieTrailer "" size [] (if c.upd then "startxref0" else "startxref") baseSec flen
+    body := body ++ tbl ++ tr
+  else
+    -- object stream 10
+    let members : List (Nat × Bytes) := [(1, o1), (2, o2), (5, o5), (6, o6), (9, bs "null")]
+    let mut content : Bytes := []
+    let mut mofs : List (Nat × Nat) := []
+    for (k, t) in members do
+      mofs := mofs ++ [(k, content.length)]
+      content := content ++ t ++ bs " "
+    let mut hd : Bytes := []
+    let mut i := 0
+    for (k, o) in mofs do
+      hd := hd ++ (← num s!"os.num{i}" k size) ++ bs " " ++ (← num s!"os.ofs{i}" o content.length) ++ bs " "
+      i := i + 1
+    let first ← num "os.First" hd.length (hd.length + content.length)
+    let nn ← num "os.N" members.length
+    let whole := hd ++ content
+    -- a TRUNCATED object stream (everything else consistent): cut near the ends and near /First, or near the last member
+    let cut1 ← fld "os.cut" whole.length hd.length
+    let cut2 ← fld "os.cut2" whole.length (hd.length + (mofs.getLast?.map (·.2)).getD 0)
+    let raw := whole.take (min cut1.toNat cut2.toNat)
+    let data := if c.flate then zlibStored raw else raw
+    let f10 := streamObj 10 (bs "/Type /ObjStm /N " ++ nn ++ bs " /First " ++ first ++
+      (if c.flate then bs " /Filter /FlateDecode" else [])) (← num "os.Length" data.length) data
+    let off10 := body.length
+    body := body ++ f10
+    let off11 := body.length
+    offs := offs ++ [(10, off10), (11, off11)]
+    let rowOf (k : Nat) : Nat × Nat × Nat × Nat × Nat × Nat :=
+      match offs.lookup k with
+      | some o => (k, 1, o, 0, flen, 0)
+      | none =>
+        match (members.map (·.1)).idxOf? k with
+        | some ix => (k, 2, 10, ix, size, members.length)
+        | none => (k, 0, 0, 255, size, 0)
+    if c.layout == 1 then
+      let rows := (List.range size).map rowOf
+      let f11 ← lieXrefStm "" c 11 size (if c.index then some [(0, size)] else none) rows []
+      baseSec := off11
+      body := body ++ f11 ++ bs "startxref\n" ++ (← num (if c.upd then "startxref0" else "startxref") off11 flen) ++ bs "\n%%EOF\n"
+    else
+      let rows := [1, 2, 5, 6, 9].map rowOf
+      let f11 ← lieXrefStm "" c 11 size (some [(1, 2), (5, 2), (9, 1)]) rows []
+      body := body ++ f11
+      baseSec := body.length
+      let o (k : Nat) : Option Nat := some ((offs.lookup k).getD 0)
+      let tbl ← lieTable "" [(0, [none]), (3, [o 3, o 4]), (7, [o 7, o 8]), (10, [o 10, o 11])] size flen
+      let tr ← lieTrailer "" size (bs " /XRefStm " ++ (← num "XRefStm" off11 flen)) (if c.upd then "startxref0" else "startxref") baseSec flen
+      body := body ++ tbl ++ tr
+  if c.upd then
+    let ofsNew := body.length
+    body := body ++ streamObj 4 [] (natStr updContent.length) updContent
+    let sec := body.length
+    let prev ← num "Prev" baseSec flen
+    if c.layout == 1 then
+      let f12 ← lieXrefStm "u." c 12 13 (some [(4, 1), (12, 1)]) [(4, 1, ofsNew, 0, flen, 0), (12, 1, sec, 0, flen, 0)] (bs " /Prev " ++ prev)
+      body := body ++ f12 ++ bs "startxref\n" ++ (← num "startxref" sec flen) ++ bs "\n%%EOF\n"
+    else
+      let tbl ← lieTable "u." [(4, [some ofsNew])] size flen
+      let tr ← lieTrailer "u." size (bs " /Prev " ++ prev) "startxref" sec flen
+      body := body ++ tbl ++ tr
+  return body
+
+/-- the document and the fields it consulted (the file length is found by iteration) -/
+def runLie (c : LieCfg) (L : LieFn) : Bytes × List String :=
+  let go (flen : Nat) : Bytes × List String := Id.run (((lieDocM c flen).run L).run [])
+  let d0 := (go 0).1
+  let d1 := (go d0.length).1
+  let d2 := (go d1.length).1
+  let (d, fs) := go d2.length
+  (d, fs.reverse.eraseDups)
+
+/-- the document of `c` in which field `f` takes its `k`-th boundary value -/
+def lieDoc (c : LieCfg) (thorough : Bool) (f : String) (k : Nat) : Bytes :=
+  (runLie c fun g e x => if g == f then ((lieVals thorough e x)[k]?).getD e else e).1
+
+def lieCfgs (thorough : Bool) : List LieCfg :=
+  [{ layout := 0 }, { layout := 1 }, { layout := 2 }, { layout := 0, upd := true }, { layout := 1, upd := true },
+   { layout := 2, upd := true }, { layout := 1, wide := true }, { layout := 1, index := true }, { layout := 1, flate := true }] ++
+  (if thorough then [{ layout := 2, flate := true }, { layout := 2, wide := true }, { layout := 1, upd := true, flate := true, wide := true },
+    { layout := 1, index := true, wide := true, flate := true }, { layout := 2, upd := true, flate := true }] else [])
+
+/-- quick tier: the fields swept in a configuration (thorough: all of them).  The plain configuration of a layout
+    sweeps one field of every kind the layout has; the variants (update, wide rows, /Index, Flate) sweep what the
+    variant adds or changes. -/
+def lieQuickSel (c : LieCfg) (f : String) : Bool :=
+  let plainCfg := !c.upd && !c.wide && !c.index && !c.flate
+  let sel : List String :=
+    if plainCfg then
+      match c.layout with
+      | 0 => ["pg.Kids", "pg.Count", "len.direct", "len.ref", "ct.start0", "ct.count0", "ct.ofs1", "ct.ofs4", "tr.Size", "startxref"]
+      | 1 => ["os.ofs0", "os.ofs1", "os.ofs4", "os.num4", "os.First", "os.N", "os.cut", "os.cut2", "xs.Size", "xs.W0", "xs.Length",
+              "xs.r0.a", "xs.stmAll", "xs.r1.b", "xs.r9.b", "xs.r3.a", "startxref"]
+      | _ => ["os.ofs4", "os.First", "os.N", "os.cut2", "XRefStm", "ct.start1", "ct.ofs11", "xs.Index0", "xs.Index1", "startxref", "pg.Kids"]
+    else if c.upd then
+      match c.layout with
+      | 0 => ["Prev", "startxref", "u.ct.ofs4", "u.ct.start0"]
+      | 1 => ["Prev", "startxref", "u.xs.r4.a", "u.xs.Index0"]
+      | _ => ["Prev", "startxref"]
+    else if c.wide then ["xs.r1.a", "xs.r1.b", "xs.r3.a"]
+    else if c.index then ["xs.Index0", "xs.Index1", "xs.Size"]
+    else ["os.ofs4", "os.cut2", "xs.cut"]
+  sel.contains f
+
+def lieSweep (thorough : Bool) (doc : Bytes → IO Unit) : IO Unit := do
+  for c in lieCfgs thorough do
+    let (h, fields) := runLie c honest
+    doc h
+    for f in fields do
+      if thorough || lieQuickSel c f then
+        let mut seen := [h]
+        for k in List.range 28 do
+          let d := lieDoc c thorough f k
+          if !seen.contains d then
+            seen := d :: seen
+            doc d
+
 def gen (seed n : Nat) (tier : String) (emit : String → IO Unit) : IO Unit := do
   let doc := fun (b : Bytes) => emit s!"doc {hexOfBytes b}"
   -- fixed scenarios
@@ -536,6 +799,7 @@ def gen (seed n : Nat) (tier : String) (emit : String → IO Unit) : IO Unit := 
     doc (baseDoc data (bs "/Filter /FlateDecode /DecodeParms << " ++ bs pp ++ bs " >>") none (bs "[3 0 R]") [] [] [] [])
     doc (baseDoc data (bs "/Filter [/FlateDecode] /DecodeParms [<< " ++ bs pp ++ bs " >>]") none (bs "[3 0 R]") [] [] [] [])
   parmSweep (tier == "thorough") doc
+  lieSweep (tier == "thorough") doc
   doc (baseDoc (zlibStored textContent) (bs "/Filter /FlateDecode") none (bs "[3 0 R]") [] [] [] [])
   doc (baseDoc (bs "<424420> ") (bs "/Filter [/ASCIIHexDecode /ASCII85Decode /FlateDecode]") none (bs "[3 0 R]") [] [] [] [])
   doc (baseDoc (bs "zzzz87cURD]i,\"Ebo80~>") (bs "/Filter /ASCII85Decode") none (bs "[3 0 R]") [] [] [] [])
